@@ -773,3 +773,9 @@ Definition inv_b (pre : list N) (s : state) : bool :=
   forallb (fun th => wf_pc fields (t_pc th)) (s_thr s) &&
   forallb (fun c => wf_claim fields (snd c)) (s_pool s) &&
   all_below (length pre * 64)%nat (fun p => Nat.eqb (b2n (bm_bit (s_bm s) p)) (owners pre s p)).
+
+(* the states reachable from the initial bitmap `pre` under ANY schedule, for any number of threads
+   with any programs *)
+Inductive reachable (pre : list N) (progs : list (list op)) : state -> Prop :=
+| reach_init : reachable pre progs (init_state pre progs)
+| reach_step s t s' a : reachable pre progs s -> stepx s t = Some (s', a) -> reachable pre progs s'.
